@@ -81,6 +81,8 @@ func C10(c *Ctx) {
 	r.Rule("R10.2", "field coverage: the per-key preimage contains key and value; the per-account preimage contains the address, the marshalled dirty account and the state hash; the predicate selecting hashed keys (!bytes.Equal(orig, value)) is the same predicate that selects keys for the journal and for Commit.")
 	r.Rule("R10.3", "injective encoding: a preimage built by concatenating two or more variable-length fields per element without length prefix or delimiter is ambiguous (key||value): different write sets can produce the same root.")
 	r.NotDecided = append(r.NotDecided, "collision resistance; sensitivity as a behavioural fact")
+	r.Rule("R10.5", "the root commits to what the database holds: every Put / Delete that SimpleLedger.Commit issues on the state batch uses a key built by one of the ledger's key constructors (composeStateKey, compositeKey), and for each data kind written (account record, code, storage key) the Put and the Delete use the same constructor; a change that is hashed into the root but written under another key leaves the database behind the root.")
+	c.commitKeyDiscipline("R10.5")
 
 	type target struct{ spec, what string }
 	nHash := 0
@@ -371,4 +373,40 @@ func sameSliceVar(v, rng ssa.Value) bool {
 		}
 	}
 	return false
+}
+
+// commitKeyDiscipline: every batch write of SimpleLedger.Commit uses a constructed key; per kind Put and Delete agree.
+func (c *Ctx) commitKeyDiscipline(rule string) {
+	r := c.R
+	commit := c.fn(rule, "internal/ledger.(*SimpleLedger).Commit")
+	if commit == nil {
+		return
+	}
+	n := 0
+	seen := map[string]int{}
+	for _, f := range core.WithClosures(commit) {
+		for _, call := range core.Calls(f) {
+			o := core.CalleeObj(call)
+			if o == nil || (o.Name() != "Put" && o.Name() != "Delete") {
+				continue
+			}
+			rv := core.Receiver(call)
+			if rv == nil || !strings.HasSuffix(rv.Type().String(), "storage.Batch") {
+				continue
+			}
+			n++
+			k := storageKind(core.Arg(call, 0))
+			key := "Commit: " + o.Name() + " key constructed"
+			seen[key]++
+			r.Check(k != "", rule, fmt.Sprintf("%s #%d", key, seen[key]), c.P.Pos(call.Pos()), "key kind "+k,
+				"a batch "+o.Name()+" in SimpleLedger.Commit uses a key that is not built by composeStateKey / compositeKey: the entry the ledger reads (address-prefixed) is not the entry written, so the database no longer holds what the state root commits to (visible after a reopen or cache eviction)")
+		}
+	}
+	r.Floor(rule, "batch writes in Commit", n, 6)
+	ops := batchOps(commit)
+	for _, kind := range []string{"account", "code", "state"} {
+		okp, okd := len(ops[kind]["Put"]) > 0, len(ops[kind]["Delete"]) > 0
+		r.Check(okp && okd, rule, "Commit: "+kind+" data is both written and deleted under its constructor", c.P.Pos(commit.Pos()), "Put and Delete present for kind "+kind,
+			"SimpleLedger.Commit has no "+map[bool]string{true: "Delete", false: "Put"}[okp]+" for "+kind+" data under the kind's key constructor: removals (or writes) of that kind never reach the database")
+	}
 }
